@@ -13,7 +13,8 @@
 (*   raised: zlib rejected it; complete: not ended, but every byte of the  *)
 (*   content was produced - only the trailer / end marker is missing;      *)
 (*   out: the bytes, as a sequence of 0..255)                              *)
-(* events: [e |-> "piece", n, out, err] / [e |-> "flush", out, err]        *)
+(* events: [e |-> "piece", n, out, err] / [e |-> "flush", out, err] /      *)
+(*         [e |-> "end", err, total]  (the call as a whole returned/raised)*)
 (***************************************************************************)
 EXTENDS Naturals, Sequences, TLC, Json, IOUtils, TLCExt
 
@@ -34,12 +35,15 @@ MInit == tid \in 1..NT /\ l = 1 /\ out = <<>> /\ err = "none" /\ phase = "feed" 
 MNext ==
   /\ l <= Len(Ev) /\ l' = l + 1 /\ UNCHANGED tid
   /\ LET e == Cur IN
-     /\ out' = out \o e.out
+     /\ out' = IF e.e = "end" THEN e.total ELSE out \o e.out      \* at the end: what the caller's file holds
      /\ err' = IF err = "none" THEN e.err ELSE err
      /\ fed' = IF e.e = "piece" THEN fed + e.n ELSE fed
-     /\ phase' = IF e.err # "none" THEN "failed"
+     /\ phase' = IF phase \in {"ended", "after_end"} THEN "after_end"    \* events after the end: malformed recording
+                 ELSE IF e.err # "none" THEN "failed"
+                 ELSE IF phase = "failed" THEN (IF e.e = "end" THEN "after_end" ELSE "failed")  \* a failure must stay one
+                 ELSE IF e.e = "end" THEN "ended"                     \* the call returned normally
                  ELSE IF phase = "feed" /\ e.e = "flush" THEN "flushed"
-                 ELSE IF phase = "feed" THEN "feed" ELSE "after_end"    \* events after the end: malformed recording
+                 ELSE IF phase = "feed" /\ e.e = "piece" THEN "feed" ELSE "after_end"
 
 MSpec == MInit /\ [][MNext]_mvars
 
@@ -51,10 +55,11 @@ AccOk  == T.ref.ok \/ (~StrictTrailer /\ ~T.ref.raised /\ T.ref.complete)
 AccErr == ~T.ref.ok \/ T.quirk1f
 
 NoSpuriousError == phase = "failed" => AccErr
-OutputEqual     == (phase = "flushed" /\ AccOk) => out = T.ref.out
-ErrorReported   == phase = "flushed" => AccOk
+Finished        == phase \in {"flushed", "ended"}
+OutputEqual     == (Finished /\ AccOk) => out = T.ref.out
+ErrorReported   == Finished => AccOk
 ErrorClass      == err \in {"none", IF T.path = "stream" THEN "protocol" ELSE "zlib"}
-WholeBodyFed    == phase = "flushed" => fed = T.n
+WholeBodyFed    == Finished => fed = T.n
 WellFormed      == phase # "after_end"
 
 ASSUME \A i \in 1..(2 * NT) : TLCSet(i, 0)
